@@ -13,13 +13,19 @@ RULE = ("Ipv6Extensions/Ipv4Extensions values built through the crate's construc
         "payload sizes small and at the limits (2046 byte options, 1016 byte ICV); per case: next_header, write "
         "(result + bytes, also on error), header_len, from_slice/from_slice_lax of the written bytes, "
         "set_next_headers(last) followed by next_header/write/from_slice, IpHeaders::set_next_headers/next_header/"
-        "header_len, NetHeaders::try_set_next_headers; plus raw byte chains (duplicates, truncation, wrong lengths) "
-        "through from_slice/from_slice_lax. non-trivial = distinct case with >= 2 headers present (e6), an auth "
-        "header (e4) or >= 16 input bytes (d6/d4)")
+        "header_len, NetHeaders::try_set_next_headers; plus ARBITRARY / damaged byte chains (d6/d4: random chains with "
+        "duplicates, late hop-by-hop, truncation, wrong lengths; every sequence of <= 4 header kinds (repeats in every "
+        "position) intact, cut exactly at and one byte before every header boundary, with length bytes 0 and 255) "
+        "through from_slice, from_slice_lax, write/next_header of the decoded struct, read (Cursor) and read_limited "
+        "(LimitedReader over a Cursor, budget = input length), and l6/l4: read_limited with budgets around the header "
+        "boundaries and beyond the data. non-trivial = distinct case with >= 2 headers present (e6), an auth "
+        "header (e4) or >= 16 input bytes (d6/d4/l6/l4)")
 ASSUMPTIONS = ["std::io::Write errors are not modelled (the writer is a Vec<u8>)",
                "header values are built through the crate's constructors (private length fields consistent with the buffers)"]
 PROJECTION = ("next_header/write results (error kind, bytes written also on error), header_len, decoded struct + final "
-              "number + rest length + error record (required_len,len,layer,offset) of from_slice and from_slice_lax, "
+              "number + rest (offset+length inside the input) + error record (required_len,len,layer,offset) of from_slice "
+              "and from_slice_lax, bytes re-written from the decoded struct, struct/number/reader position or error "
+              "(io kind / LenError with source) of read and read_limited, "
               "next_header fields and returned number of set_next_headers, ether type, IpHeaders next_header/header_len")
 
 EXT = (0, 43, 44, 51, 60)
@@ -56,6 +62,19 @@ def corpus():
         "d4 51 1101000000000001000000020a0b0c0d",
         "d4 51 1100000000000001000000020a0b0c0d",
         "d4 17 0102",
+        # six headers (fragment + AH with reserved bits set) then a second routing header: stop in front of it
+        "d6 0 3c000102030405062b000707070707073c0109090909090909090909090909092c0008080808080833aa1237010203042b01bbcc00000005000000061100010101010101fffe",
+        # destination options cut one byte short / cut exactly at the boundary with an extension number pending
+        "d6 60 2c010000000000000000000000000000",
+        "d6 60 2c0100000000000000000000000000",
+        "d6 44 3c0000010000000911020000000000000000",
+        "d6 43 3c00000000000000" + "3c00000000000000" + "3c00000000000000" + "1100000000000000",
+        "l6 44 7 40 3c0000010000000911020000000000000000",
+        "l6 44 9 40 3c0000010000000911020000000000000000",
+        "l6 44 30 0 3c0000010000000911020000000000000000",
+        "l6 0 8 40 3c00010203040506",
+        "l4 51 5 20 1101bbcc000000010000000277",
+        "l4 51 12 20 1101bbcc000000010000000277",
         "arp 17",
         "arp 0",
     ]
@@ -137,6 +156,28 @@ def _tok(rng, pools, kind, nh, big=False):
     if kind == "f":
         return _frag(rng, nh)
     return _auth(rng, pools, nh, 254 if big else None)
+
+def _chain(rng, seq, final, force=None, fill=False):
+    """bytes of a chain of the given header kinds linked to `final`; header boundaries.
+    force=(i, v): length byte of header i is v (the data keeps its size unless fill)"""
+    data = bytearray()
+    bounds = [0]
+    for i, kind in enumerate(seq):
+        nxt = NUM[seq[i + 1]] if i + 1 < len(seq) else final
+        forced = force is not None and force[0] == i
+        if kind in "hdrx":
+            hl = rng.below(3)
+            body = 6 + 8 * (force[1] if forced and fill else hl)
+            data += bytes([nxt, force[1] if forced else hl]) + rng.bytes(body)
+        elif kind == "f":
+            # reserved byte and reserved bits arbitrary; the length byte does not exist (forced: reserved byte)
+            data += bytes([nxt, force[1] if forced else rng.below(256)]) + rng.bytes(6)
+        else:
+            w = rng.below(4)
+            body = 10 + 4 * ((force[1] - 1 if force[1] else 0) if forced and fill else w)
+            data += bytes([nxt, force[1] if forced else w + 1]) + rng.bytes(body)
+        bounds.append(len(data))
+    return bytes(data), bounds
 
 
 def shapes():
@@ -245,6 +286,60 @@ def gen_cases(rng, tier):
             b = bounds[rng.below(len(bounds) - 1)]
             data[b] = _nh(rng)
         cases.append("d6 %d %s" % (first, hx(bytes(data))))
+    # F: every sequence of <= 4 (thorough: 5) header kinds -- repeated kinds in every position -- intact, cut
+    #    exactly at / one byte before every header boundary, with the length byte of one header 0 / 255
+    import itertools
+    for k in range(0, 6 if big else 5):
+        for seq in itertools.product("hdrfa", repeat=k):
+            final = (17, 59, 6, 43, 0, 60, 44, 51)[rng.below(8)] if rng.chance(1, 4) else 17
+            data, bounds = _chain(rng, seq, final)
+            first = NUM[seq[0]] if seq else final
+            cases.append("d6 %d %s" % (first, hx(data + rng.bytes(rng.below(10)))))
+            for b in bounds[1:]:
+                cases.append("d6 %d %s" % (first, hx(data[:b])))
+                cases.append("d6 %d %s" % (first, hx(data[:b - 1])))
+            if seq:
+                i = rng.below(len(seq))
+                for lb in (0, 255):
+                    dmg, _ = _chain(rng, seq, final, force=(i, lb))
+                    cases.append("d6 %d %s" % (first, hx(dmg)))
+                if rng.chance(1, 1 if big else 12):
+                    dmg, _ = _chain(rng, seq, final, force=(i, 255), fill=True)
+                    cases.append("d6 %d %s" % (first, hx(dmg + rng.bytes(rng.below(4)))))
+                if rng.chance(1, 3):
+                    cases.append("d6 %d %s" % (_nh(rng), hx(data)))
+    # G: read_limited with budgets around the boundaries, beyond the data, and tiny
+    for _ in range(60000 if big else 7000):
+        n = rng.below(7)
+        seq = [("h", "d", "r", "f", "a", "d", "r", "a")[rng.below(8)] for _ in range(n)]
+        if seq and rng.chance(1, 3):
+            seq[0] = "h"
+        final = _nh(rng, 5 + rng.below(3)) if rng.chance(3, 4) else _nh(rng)
+        data, bounds = _chain(rng, seq, final)
+        data = data + rng.bytes(rng.below(12))
+        first = NUM[seq[0]] if seq else final
+        m = rng.below(8)
+        if m == 0:
+            budget = len(data)
+        elif m == 1:
+            budget = bounds[rng.below(len(bounds))]
+        elif m == 2:
+            budget = max(0, bounds[rng.below(len(bounds))] - 1)
+        elif m == 3:
+            budget = bounds[rng.below(len(bounds))] + (1, 2, 7, 8, 11, 12)[rng.below(6)]
+        elif m == 4:
+            budget = rng.below(13)
+        elif m == 5:
+            budget = len(data) + rng.range(1, 40)
+        else:
+            budget = rng.below(len(data) + 1)
+        cases.append("l6 %d %d %d %s" % (first, budget, (0, 40, 40, 1234)[rng.below(4)], hx(data)))
+    for _ in range(8000 if big else 1500):
+        w = rng.below(5)
+        data = bytes([_nh(rng), (w + 1, w + 1, w + 1, 0, 255)[rng.below(5)]]) + rng.bytes(10 + 4 * w + rng.below(6))
+        budget = (len(data), 12 + 4 * w, 11 + 4 * w, 12, 11, 0, len(data) + 3, rng.below(len(data) + 1))[rng.below(8)]
+        first = 51 if rng.chance(5, 6) else _nh(rng)
+        cases.append("l4 %d %d %d %s" % (first, budget, (20, 24, 60)[rng.below(3)], hx(data)))
     # D: IPv4
     for auth_present in (0, 1):
         for fc in range(8):
@@ -298,6 +393,8 @@ def _nontrivial(c):
         return p[4] != "-"
     if p[0] in ("d6", "d4"):
         return len(p[2]) >= 32
+    if p[0] in ("l6", "l4"):
+        return len(p[4]) >= 32
     return False
 
 
@@ -347,14 +444,54 @@ def _oracle(case, il):
             return "NetHeaders::try_set_next_headers returned %s" % f.get("net")
     elif tag in ("d6", "d4"):
         d, x = f.get("d", "?"), f.get("x", "?")
-        if d.startswith("ok:") and x != d[3:] + ":none":
-            return "strict from_slice %s but lax %s" % (d[:60], x[:60])
+        r, l, wb = f.get("r", "?"), f.get("l", "?"), f.get("wb", "?")
+        hdr_off = 40 if tag == "d6" else 20
+        if d.startswith("ok:"):
+            if x != d[3:] + ":none":
+                return "strict from_slice %s but lax %s" % (d[:60], x[:60])
+            _, fin, pos = d.rsplit(":", 2)
+            off, rl = pos.split("+")
+            total = 0 if p[2] == "-" else len(p[2]) // 2
+            if int(off) + int(rl) != total:
+                return "from_slice: rest %s is not a suffix of the %d input bytes" % (pos, total)
+            want = "ok:=d:%s:%s" % (fin, off)
+            if r != want:
+                return "from_slice ok (%s, consumed %s) but read gives %s" % (fin, off, r[:80])
+            if l != want:
+                return "from_slice ok (%s, consumed %s) but read_limited(budget = input) gives %s" % (fin, off, l[:80])
+            wst, whex = wb.split("/")[0].rsplit(":", 1)
+            wl = 0 if whex == "-" else len(whex) // 2
+            if wst != "ok" or wl != int(off) or not wb.endswith("/ok:" + fin):
+                return "decode then write/next_header: %s (consumed %s bytes, final %s)" % (wb[:80], off, fin)
+        else:
+            if not x.endswith(":" + d + "/" + x.rsplit("/", 1)[-1]) and tag == "d6":
+                return "strict from_slice error %s is not the one lax reports: %s" % (d, x[-80:])
+            if tag == "d4" and not x.endswith(":" + d):
+                return "strict from_slice error %s is not the one lax reports: %s" % (d, x[-80:])
+            if wb != "-":
+                return "write-back field without a decoded struct"
+            if d in ("hbh", "authzero"):
+                if r != d or l != d:
+                    return "from_slice %s but read %s / read_limited %s" % (d, r, l)
+            elif d.startswith("len:"):
+                if r != "io:eof":
+                    return "from_slice %s but read gives %s (expected unexpected-eof)" % (d, r[:60])
+                dq = d[4:].split(",")
+                if not l.startswith("len:"):
+                    return "from_slice %s but read_limited gives %s" % (d, l[:60])
+                lq = l[4:].split(",")
+                if lq[1] != dq[1] or lq[2] != dq[2] or int(lq[3]) != hdr_off + int(dq[3]):
+                    return "read_limited LenError %s does not match from_slice %s (+%d)" % (l, d, hdr_off)
+                if lq[0] != dq[0] and not (dq[2] == "Ipv6ExtHeader" and int(dq[1]) < 8):
+                    return "read_limited required_len %s, from_slice %s" % (lq[0], dq[0])
     return None
 
 
 def compare(ctx, cases, impl, model_lines):
     corr, orc = [], []
-    hist = {"e6": 0, "e4": 0, "d6": 0, "d4": 0, "arp": 0,
+    hist = {"e6": 0, "e4": 0, "d6": 0, "d4": 0, "l6": 0, "l4": 0, "arp": 0,
+            "decode stopped at refilled header": 0, "decode: reserved bits lost on write-back": 0,
+            "read_limited ok": 0, "read_limited len error": 0, "read_limited eof/content": 0,
             "walk ok non-ext": 0, "walk ok ext": 0, "walk hbh": 0, "walk not-referenced": 0,
             "decode ok": 0, "decode len error": 0, "decode content error": 0,
             "max size header": 0}
@@ -412,6 +549,16 @@ def compare(ctx, cases, impl, model_lines):
                 elif p[0] in ("d6", "d4"):
                     d = f.get("d", "")
                     hist["decode ok" if d.startswith("ok:") else ("decode len error" if d.startswith("len:") else "decode content error")] += 1
+                    if d.startswith("ok:"):
+                        fin = int(d.rsplit(":", 2)[1])
+                        if (fin in EXT) if p[0] == "d6" else fin == 51:
+                            hist["decode stopped at refilled header"] += 1
+                        whex = f.get("wb", "-").split("/")[0].rsplit(":", 1)[-1]
+                        if whex != "-" and not p[2].startswith(whex):
+                            hist["decode: reserved bits lost on write-back"] += 1
+                elif p[0] in ("l6", "l4"):
+                    lv = f.get("l", "")
+                    hist["read_limited ok" if lv.startswith("ok:") else ("read_limited len error" if lv.startswith("len:") else "read_limited eof/content")] += 1
     hist["distinct presence shapes (of 48)"] = len(masks)
     return {"corr_mismatch": corr, "oracle_fail": orc, "hist": hist, "nontrivial": nontriv,
             "samples": [cases[0], cases[len(cases) // 3][:400], cases[-4][:400]],
